@@ -88,8 +88,28 @@ func sweepNopanic(p *Prog, pc *PropConfig, tags string, r *checkResult) {
 		fv.inferCounters = true
 		fv.safetyOnly = true
 		if err := fv.translate(); err != nil {
-			r.errors = append(r.errors, err.Error())
-			continue
+			if p.CS.ByKey[fn.String()] == nil {
+				r.errors = append(r.errors, err.Error())
+				continue
+			}
+			// the written contract no longer fits the function (a name it mentions is gone): the safety
+			// sweep itself needs no annotation, so fall back to the bare function (loops then rely on the
+			// inferred counter invariants only); the functional contract is the business of its own property
+			bare := &Contract{Key: fn.String(), Kind: "func", Pkg: fn.Package().Pkg.Path(), Mode: ModeBV, Props: []string{pc.ID}, Loops: map[int]*LoopSpec{}, Flags: map[string]string{"allocbound": "scope", "errorpanic": "1", "replay": "cbor_decode_total"}, File: "(sweep nopanic, contract dropped: " + err.Error() + ")"}
+			bare.Requires = c.Requires[len(c.Requires)-countSweepRequires(c):]
+			fv = newFuncVC(p, fn, bare)
+			if tags != "" {
+				fv.Name += "[" + tags + "]"
+			}
+			fv.Name += "[safety]"
+			fv.activeProp = pc.ID
+			fv.inferCounters = true
+			fv.safetyOnly = true
+			if err2 := fv.translate(); err2 != nil {
+				r.errors = append(r.errors, err2.Error())
+				continue
+			}
+			r.notes = append(r.notes, "nopanic: the contract of "+fn.String()+" does not apply to the current body ("+err.Error()+"); safety obligations generated without it")
 		}
 		var keep []*Obligation
 		for _, o := range fv.obls {
@@ -117,6 +137,16 @@ func sweepNopanic(p *Prog, pc *PropConfig, tags string, r *checkResult) {
 	if n == 0 {
 		r.errors = append(r.errors, "nopanic sweep matched no function")
 	}
+}
+
+func countSweepRequires(c *Contract) int {
+	n := 0
+	for _, r := range c.Requires {
+		if r.File == "(sweep nopanic)" {
+			n++
+		}
+	}
+	return n
 }
 
 // inferCounterInvariants adds `phi >= c` for header phis of the shape
